@@ -1,8 +1,13 @@
 (* C20 — interpolation reproduces the piecewise-linear / nearest interpolant.
    Model Interp.v (include/adept/interp.h), theorems over the real numbers (InterpProofs.v).
-   [chord t ya yb] is the row  ya + t (yb - ya). *)
+   [chord t ya yb] is the row  ya + t (yb - ya).
+   Tie G for interp2d / interp3d: interp_get_indices_weights is TRANSLATED from interp.h on every run (Gen_Interp.v: ordering
+   test, in-range tests, search loops, weights of the three cases and both extrapolation policies, as expression trees) and
+   proved equal to the hand model's index_weight for every scheme, policy, coordinate vector with at least two knots and
+   query, over ANY scalar type (interp2d / interp3d reject shorter vectors with size_mismatch). *)
 From Coq Require Import List Arith Reals.
-From Adept Require Import Scalar Interp InterpProofs.
+From Adept Require Import Scalar Interp InterpProofs InterpDefs InterpGenProofs.
+From AdeptGen Require Import Gen_Interp.
 Import ListNotations.
 Local Open Scope R_scope.
 
@@ -81,3 +86,9 @@ Example C20_options :
   decode 0 = Ok (Linear, PLinear) /\ decode 16 = Ok (Nearest, PClamp) /\ decode 17 = ArrayException /\
   decode 3 = Ok (Linear, PConstant) /\ decode 4 = ArrayException /\ decode 32 = ArrayException /\ decode 18 = Ok (Nearest, PClamp).
 Proof. vm_compute. repeat split. Qed.
+
+(* tie G: the translated interp_get_indices_weights is the model's [index_weight] (which interp2d_query / interp3d_query use) *)
+Theorem C20_generated_indices_weights : forall (T : Type) (Op : Ops T) s p (x : list T) q, (2 <= length x)%nat ->
+  iw_eval Op iw_table s p x q = index_weight Op s p x q.
+Proof. exact @generated_index_weight. Qed.
+Print Assumptions C20_generated_indices_weights.
